@@ -321,6 +321,26 @@ def cases(tier, shard, nshards):
                 v = vals[:n + 1]
                 steps.append(" ".join(str(v[0]) if i == 0 else "%s %d" % (seq[i - 1], v[i]) for i in range(n + 1)))
             yield Case(steps, {"fam": "E", "ops": list(seq)}, bind=bindE, iso=True)
+    # ---- F: a RIGHT-associative builtin (^, and an alias of it) whose precedence is assigned at run time - also to the value it
+    #         already has: the assignment changes the level only, the associativity stays
+    for pnew in (4, 5, 6, 7):
+        for target, opname in (("^", "^"), ("pw", "pw")):
+            pre = (["pw := ^"] if target == "pw" else []) + ["%s::precedence = %d" % (target, pnew)]
+            maxf = 2 if tier == "quick" else 3
+            for n in range(1, maxf + 1):
+                for seq in itertools.product([opname, "+", "*", "-"], repeat=n):
+                    if opname not in seq:
+                        continue
+                    if not mine():
+                        continue
+                    vals = [2, 3, 2, 1][:n + 1]
+                    src = " ".join(str(vals[0]) if i == 0 else "%s %d" % (seq[i - 1], vals[i]) for i in range(n + 1))
+                    steps = [src]
+                    for h in range(n + 1):
+                        toks = [str(v) for v in vals]
+                        toks[h] = "_"
+                        steps.append("(%s)(%d)" % (" ".join(toks[0] if i == 0 else "%s %s" % (seq[i - 1], toks[i]) for i in range(n + 1)), vals[h]))
+                    yield Case(steps, {"fam": "F", "ops": ["^" if o == opname else o for o in seq], "vals": vals, "prec": pnew, "alias": target}, pre=pre, iso=True)
     # ---- D: list builtins vs prefix rendering
     maxd = 2 if tier == "quick" else 3
     for n in range(1, maxd + 1):
@@ -353,7 +373,7 @@ def nontrivial(case, rs):
     m = case.meta
     if m["fam"] == "A":
         return len(m["cfg"]) >= 2
-    if m["fam"] in ("C", "D", "E"):
+    if m["fam"] in ("C", "D", "E", "F"):
         return len(m["ops"]) >= 2
     return True
 
@@ -369,7 +389,28 @@ def judge(case, rs):
         return judge_C(case, rs)
     if fam == "E":
         return judge_E(case, rs)
+    if fam == "F":
+        return judge_F(case, rs)
     return judge_D(case, rs)
+
+
+def judge_F(case, rs):
+    m = case.meta
+    P = builtin_precs()
+    ops = [((m["prec"], "R", "^") if o == "^" else (P[o][0], P[o][1], o)) for o in m["ops"]]
+    t = group(ops, num_chains)
+    exp = num_eval(t, m["ops"], m["vals"])
+    if exp in ("skip", "raise"):
+        return []
+    want = cI(int(exp)) if Fraction(exp).denominator == 1 else cQ(Fraction(exp))
+    sig = "C03 F %s::precedence=%d ops=%s" % (m["alias"], m["prec"], " ".join(m["ops"]))
+    for src, r in zip(case.steps, rs):
+        if r.get("st") != "ok":
+            return [Violation(sig + " result=" + str(r.get("st")), "%s after %s -> %s %s, expected %s" % (src, case.pre, r.get("st"), r.get("e"), want), want, r.get("st"))]
+        if norm(r["v"]) != want:
+            return [Violation(sig + " result=wrong-grouping", "%s after %s gave %s; ^ keeps its right associativity at level %d, so the reference grouping gives %s" % (
+                src, list(case.pre), norm(r["v"]), m["prec"], want), want, norm(r["v"]))]
+    return []
 
 
 def judge_E(case, rs):
